@@ -434,12 +434,12 @@ PROPS = {
         "rule": "seeded adversarial formulas (shadowed/repeated binders, X = t(X), duplicated conjuncts, mixed-sort equalities, the shapes each "
                 "rewrite looks for) + corpus; (a) each of the 15 rewrites at the root, (b) each portfolio concatenation x {shallow, recursive, "
                 "fixpoint (pass bound 64)}, (c) Formula::substitute; exact tree equality with the Lean model; non-trivial = output differs from input",
-        "level_text": "Truth-value claim: full for all three portfolios. portfolio_sound_intuitionistic/_ht: HT-equivalence for every strategy, pass bound, formula, "
+        "level_text": "Full. Truth-value claim for all three portfolios. portfolio_sound_intuitionistic/_ht: HT-equivalence for every strategy, pass bound, formula, "
                       "interpretation with H subset T, world, assignment (each of the 10 INTUITIONISTIC rewrites proved). portfolio_sound_classic: classical equivalence, "
                       "unconditional - all five CLASSIC rewrites proved (remove_double_negation, substitute_defined_variables, restrict_quantifier_domain [both forms, "
                       "with the freshness of choose_fresh_variable_names proved by pigeonhole], extend_quantifier_scope [even HT-equivalent], simplify_transitive_equality). "
                       "The last two proofs hold only after the repairs fix: 8154c20 / f1b4fb0 (before them the statements were false; the counterexamples are in corpus/formulas.txt). "
-                      "Free-variable claim: by correspondence (free_vars op) only so far - partial.",
+                      "Free-variable claim: full - portfolio_no_new_free_variables (each of the 15 rewrites is free-variable non-increasing, lifted through compose, post-order apply and the fixpoint loop).",
         "level_note": PROOF_NOTE,
         "technique": "Lean 4 proofs (per-rewrite HT/classical equivalence, congruence, composition, iteration) + differential correspondence",
         "design_ref": "DESIGN.md 6/C07",
